@@ -22,6 +22,9 @@ class JSONFormat(rt.Format):
     ext = 'json'
     fields = ('abstract', 'attrs', 'ctc-names', 'ctc-exact')
 
+    writer_cls = JSONWriter
+    reader_cls = JSONReader
+
     def write(self, fm, path):
         return JSONWriter(path, fm).transform()
 
@@ -75,6 +78,7 @@ def _level1():
     devs.append(('attr', ('a b', 1)))
     devs.append(('attr', ('ünï', 'x')))
     devs.append(('attr', ('or', True)))
+    devs += [('attr', nv) for nv in rt.ATTR_NAME_DEVS]
     return devs
 
 
